@@ -149,7 +149,7 @@ def run(ctx):
                 'coefficients, spans 5..360 min, F0 0.05..1000 Hz with F0*span/2 <= 1e6 cycles, reference phases up to 1e12, touching / '
                 'overlapping / separated spans, shuffled entry order; scalar and array times inside spans (incl. edges, across entries) '
                 'and outside; f0 and derivatives; phasepol; time_at; malformed: unequal spans. distinct by (text parameters, times).')
-    ctx.trusted = ['Coq 8.16.1 kernel (C08 theorems are axiom-free over Q); vm_compute',
+    ctx.trusted = ['translator T14 translate/py_predictor2coq.py (span edges, merge pass, selection, evaluation, from_polyco arithmetic; other statements pinned)', 'Coq 8.16.1 kernel (C08 theorems are axiom-free over Q); vm_compute',
                    'astropy Time (two-double) differences as exact rationals on the TAI scale; float64 Horner evaluation within 1e-8 cycles '
                    'inside the sampled envelope F0*span/2 <= 1e6 cycles (assumption of the correspondence, not of the theorems)']
     ctx.assumptions = ['times closer than 1 ns to a span end are not used for the entry-selection comparison with the exact model (the code holds '
